@@ -536,6 +536,19 @@ func (f *fx) specBinary(e *ast.BinaryExpr, env *Env) TV {
 	if a.Sort != b.Sort {
 		unsupp("spec: %s %s %s: sorts %s and %s differ", exprString(e.X), e.Op, exprString(e.Y), a.Sort, b.Sort)
 	}
+	if a.Sort == "Float" && e.Op != token.EQL && e.Op != token.NEQ {
+		// floating-point operators are the same uninterpreted functions the code's own operators become
+		name := map[token.Token]string{token.ADD: "fadd", token.SUB: "fsub", token.MUL: "fmul", token.QUO: "fdiv", token.LSS: "flt", token.LEQ: "fle", token.GTR: "fgt", token.GEQ: "fge"}[e.Op]
+		if name == "" {
+			unsupp("spec operator %s on floats", e.Op)
+		}
+		rs, rt := "Float", av.GoT
+		if e.Op == token.LSS || e.Op == token.LEQ || e.Op == token.GTR || e.Op == token.GEQ {
+			rs, rt = "Bool", tBoolT
+		}
+		f.sc.declareOnce(name, fmt.Sprintf("(declare-fun %s (Float Float) %s)", name, rs))
+		return tvTerm(app(rs, name, a, b), rt)
+	}
 	switch e.Op {
 	case token.EQL:
 		return tvTerm(f.specEq(a, b), tBoolT)
@@ -948,6 +961,18 @@ func (f *fx) specCall(e *ast.CallExpr, env *Env) TV {
 		return tvTerm(f.e.fnIDByName(id.Name), nil)
 	case "int", "Pos", "int64", "rune", "byte", "uint64", "itemType", "NodeType", "uint8", "int32", "uint":
 		return arg(0)
+	case "float64":
+		// float64(x): the conversion function the code's own int->float conversions become
+		x := arg(0)
+		xt := f.reify(x.V)
+		if xt.Sort == "Float" {
+			return tvTerm(xt, types.Typ[types.Float64])
+		}
+		if xt.Sort != "Int" {
+			unsupp("float64(%s)", xt.Sort)
+		}
+		f.sc.declareOnce("conv_Int_to_Float", "(declare-fun conv_Int_to_Float (Int) Float)")
+		return tvTerm(app("Float", "conv_Int_to_Float", xt), types.Typ[types.Float64])
 	}
 	// predicate?
 	if p, ok := f.e.specs.Preds[name]; ok {
